@@ -3,7 +3,7 @@ from hypothesis import strategies as st
 
 from vlib import gens, lexparse
 from vlib.framework import Check, Outcome
-from vlib.sf import Crash
+from vlib.sf import Crash, guard
 from vlib.tmap import slicemap_problems
 
 
@@ -186,7 +186,42 @@ class C01(Check):
                              templater=templater, variant=var)
         if case.get("mutated"):
             out.nontrivial = True
+        if templater == "raw":
+            self.lex_unnormalised(out, case, obs)
         return out
+
+    @staticmethod
+    def lex_unnormalised(out, case, obs):
+        """The linter normalises CR / CRLF to LF before templating, so a bare carriage return never reaches the
+        lexer through render_string.  The lexer's own entry point takes any string: lex the text as given."""
+        from sqlfluff.core.parser import Lexer
+
+        sql = case["sql"]
+        if "\r" not in sql:
+            return
+        out.label("unnormalised-CR")
+        res = guard(lambda: Lexer(config=obs.config).lex(sql))
+        if isinstance(res, Crash):
+            out.fail(repr(res), clause="g-exception", templater="raw", frame=res.frame, exc=res.type, entry="lex(str)")
+            return
+        toks, errs = res
+        if "".join(t.raw for t in toks) != sql:
+            out.fail("lex(str): tokens do not concatenate to the input", clause="a-concat", templater="raw", entry="lex(str)")
+            return
+        off = 0
+        for t in toks:
+            if t.is_meta:
+                continue
+            ts, ss = t.pos_marker.templated_slice, t.pos_marker.source_slice
+            if (ts.start, ts.stop) != (off, off + len(t.raw)) or (ss.start, ss.stop) != (ts.start, ts.stop):
+                out.fail(f"lex(str): token {t.raw!r} at {ts}/{ss}, expected {off}", clause="b-contiguous", templater="raw",
+                         entry="lex(str)", cause="raw")
+                return
+            off = ts.stop
+        n_unlex = sum(1 for t in toks if t.is_type("unlexable"))
+        if n_unlex != len(errs):
+            out.fail(f"lex(str): {n_unlex} unlexable tokens but {len(errs)} LXR errors", clause="f-lxr-count", templater="raw",
+                     entry="lex(str)")
 
 
 CHECK = C01()
